@@ -1376,32 +1376,38 @@ impl<'a, R: FileManager> FrontendCtx<'a, R> {
             return self.error(&anchor, DiagnosticInfoMessage::TypeArgumentCountMismatch);
         }
 
+        // type parameters are scoped to their declaration: the body and the extends clause see the
+        // declaration's own parameters only, not those of a generic type it is reached from
+        let outer_scope = std::mem::take(&mut self.type_application_stack);
         for (k, v) in type_params.iter().zip(type_args.iter()) {
             self.type_application_stack
                 .push((k.name.sym.to_string(), v.clone()));
         }
+        let runtype = self.extract_interface_decl_in_scope(typ, file.clone(), &anchor);
+        self.type_application_stack = outer_scope;
 
-        let inferred = self.extract_ts_type_lit_members(&typ.body.body, file.clone());
+        Ok(self.with_jsdoc(&file, typ.span, runtype?))
+    }
 
-        for _ in type_params {
-            self.type_application_stack.pop();
-        }
+    fn extract_interface_decl_in_scope(
+        &mut self,
+        typ: &TsInterfaceDecl,
+        file: BffFileName,
+        anchor: &Anchor,
+    ) -> Res<Runtype> {
+        let r = self.extract_ts_type_lit_members(&typ.body.body, file.clone());
 
-        let r = inferred;
-
-        let runtype = if typ.extends.is_empty() {
+        if typ.extends.is_empty() {
             r
         } else {
             let ext = self.extract_interface_extends(&typ.extends, file.clone())?;
             let merged = Runtype::all_of(ext.into_iter().chain(std::iter::once(r?)).collect());
-            let res = self.extract_object_from_runtype(&merged, &anchor);
+            let res = self.extract_object_from_runtype(&merged, anchor);
             match res {
                 Ok(vs) => Ok(Runtype::object(vs.into_iter().collect())),
                 Err(_) => Ok(merged),
             }
-        }?;
-
-        Ok(self.with_jsdoc(&file, typ.span, runtype))
+        }
     }
 
     fn convert_required(&mut self, obj: &BTreeMap<String, Optionality<Runtype>>) -> Runtype {
@@ -1553,13 +1559,13 @@ impl<'a, R: FileManager> FrontendCtx<'a, R> {
                                 .error(anchor, DiagnosticInfoMessage::TypeArgumentCountMismatch);
                         }
 
+                        // type parameters are scoped to their declaration (see extract_interface_decl)
+                        let outer_scope = std::mem::take(&mut self.type_application_stack);
                         for (param, arg) in type_params.into_iter().zip(type_args.iter()) {
                             self.type_application_stack.push((param, arg.clone()));
                         }
                         let runtype = self.extract_type(&decl.type_ann, address.file.clone());
-                        for _ in type_args {
-                            self.type_application_stack.pop();
-                        }
+                        self.type_application_stack = outer_scope;
                         let runtype = runtype?;
                         Ok(self.with_jsdoc(&address.file, declaration_span, runtype))
                     }
